@@ -23,7 +23,7 @@ var nearMu sync.Mutex
 type Profile struct{}
 
 type pRoot struct{ Version, Dest, Issuer, Status string }
-type pAs struct{ Issuer, Subject, Conf, Method, Data, Recipient, Noa, Authn, Advice string }
+type pAs struct{ Issuer, Subject, Conf, Method, Data, Recipient, Noa, Authn, Advice, Attrs string }
 type pInput struct {
 	Sigmode string `json:"sigmode"`
 	Doc     struct {
@@ -34,15 +34,18 @@ type pInput struct {
 type pCfg struct {
 	Skip      bool `json:"skip"`
 	IssuerCfg bool `json:"issuerCfg"`
+	AllowMiss bool `json:"allowMissing"`
 }
 type pInfo struct {
 	Res string `json:"res"`
 	Err ErrObs `json:"err"`
 }
 type pObs struct {
-	Res  string `json:"res"`
-	Err  ErrObs `json:"err"`
-	Info pInfo  `json:"info"`
+	Res   string `json:"res"`
+	Err   ErrObs `json:"err"`
+	Info  pInfo  `json:"info"`
+	RFlag bool   `json:"rflag"`
+	IFlag bool   `json:"iflag"`
 }
 
 func (Profile) Name() string { return "Profile" }
@@ -134,6 +137,9 @@ func applyAsFaults(a *idp.Assertion, f pAs) {
 	if f.Authn == "absent" {
 		a.Authn = nil
 	}
+	if f.Attrs == "absent" {
+		a.Attrs = nil
+	}
 	switch f.Noa {
 	case "absent":
 		a.Subject.Conf.Data.NotOnOrAfter = nil
@@ -194,9 +200,10 @@ func (Profile) Run(c *orch.Case) *orch.Outcome {
 	}
 	doc := idp.Serialize(root, lay, rng)
 	enc := idp.Encode(doc, c.Seed%2 == 0)
-	sp := spFor(c.Seed, fmt.Sprint("profile", cfg.Skip, cfg.IssuerCfg), func() *saml2.SAMLServiceProvider {
+	sp := spFor(c.Seed, fmt.Sprint("profile", cfg.Skip, cfg.IssuerCfg, cfg.AllowMiss), func() *saml2.SAMLServiceProvider {
 		sp := w.NewSP()
 		sp.SkipSignatureValidation = cfg.Skip
+		sp.AllowMissingAttributes = cfg.AllowMiss
 		if !cfg.IssuerCfg {
 			sp.IdentityProviderIssuer = ""
 		}
@@ -212,6 +219,9 @@ func (Profile) Run(c *orch.Case) *orch.Outcome {
 		r, err := sp.ValidateEncodedResponse(enc)
 		o.Res, _ = classify(r == nil, err)
 		o.Err = projectErr(err)
+		if r != nil {
+			o.RFlag = r.SignatureValidated
+		}
 	}()
 	func() {
 		defer func() {
@@ -222,6 +232,9 @@ func (Profile) Run(c *orch.Case) *orch.Outcome {
 		r, err := sp.RetrieveAssertionInfo(enc)
 		o.Info.Res, _ = classify(r == nil, err)
 		o.Info.Err = projectErr(err)
+		if r != nil {
+			o.IFlag = r.ResponseSignatureValidated
+		}
 	}()
 	return &orch.Outcome{Obs: o, Replay: map[string]any{"encoded_response": enc, "document": string(doc), "sp": describeSP(sp), "layout": lay}}
 }
